@@ -8,7 +8,7 @@ N == Len(Events)
 FV == IOEnv.F_VALUE = "1"
 FS == IOEnv.F_SOL = "1"
 FR == IOEnv.F_RT = "1"
-Verdict(e) == CASE e.typ = "step" -> StepVerdict(e, FV, FS, FR) [] e.typ = "probe" -> ProbeVerdict(e) [] e.typ = "print" -> PrintVerdict(e) [] OTHER -> {"harness_unknown_event"}
+Verdict(e) == CASE e.typ = "step" -> StepVerdict(e, FV, FS, FR) [] e.typ = "probe" -> ProbeVerdict(e) [] e.typ = "print" -> PrintVerdict(e) [] e.typ = "reprobe" -> ReprobeVerdict(e) [] OTHER -> {"harness_unknown_event"}
 VARIABLES i, v
 Init == i \in 1..N /\ v = {"pending"}
 Next == v = {"pending"} /\ v' = Verdict(Events[i]) /\ UNCHANGED i
